@@ -101,17 +101,17 @@ EXTRA = {
  "C04": "Family L: swarms of 2 and 3 real nodes in one process (Docs engine with live actor and gossip receive loop behind a Router on loopback QUIC); every history of writes, prefix deletions, join, leave and waiting points up to the depth bound, clocks increasing and stepping back; the closing phase asks the engines for sessions and counts only those the engines report as successful; then all nodes hold the merge of the accepted writes and nothing else. The network schedule inside a history is the real one (one execution per history). The last node of a swarm has a file-backed docs store and can be shut down and started again from its directory inside a history; a bystander document that all nodes sync must be unchanged after every history.",
  "C05": "Windows at the ends of the number range (offset / limit 2^64-1); one big state (225 entries) under windows around 64, 150, 225 and 256. Family api: the big state and a sample of the small states are written and queried through the docs API of a real Engine (Doc::get_many / get_exact). The big state is also read by a slow reader (a pause of 1.5 s, thorough 7 s, after three entries).",
  "C06": "Family D: after 1100 durable entries below one prefix, histories of operations that supersede all of them. Family E: histories of writes, flush_store requests and 150 ms pauses through the store actor of a file-backed store; the file copied right after every acknowledged flush, and after shutdown, holds exactly the acknowledged writes. One scenario kills a whole node (Docs engine with a file-backed store) right after its first start and starts it again from the directory as it was.",
- "C07": "The actor family also has drop_replica (removal restarts the capability history of the document).",
+ "C07": "The actor family also has drop_replica (removal restarts the capability history of the document). A store file of the redb 2.x format holding a document's write capability lists it as writable after it is opened (converted).",
  "C09": "Author-heads reports of up to 3 authors with tied timestamps survive encode-decode. Keys of 63..20000 bytes: the entry, every message of a real session carrying it and their frames survive encode-then-decode, whole and cut.",
  "C10": "Big sets (450 entries per side) over in-memory pipes smaller than one frame and over QUIC, fault-free and with faults; a hostile initiator that completes the exchange and then sends one byte too many (the acceptor's closing step fails): the reported error must still name peer and document. Family F: the store actor is made to wait, a stop request is queued, the session's first store request queues up behind it, the actor is released: initiator and acceptor must return. Sessions whose single frame exceeds two megabytes (pushed and pulled); a fault-free session between the two real loops must succeed. Declined requests between real nodes (the decliner does not sync the document, holds an entry of it, or dropped it and called start_sync through a surviving handle): entries, useful peers and policy of the decliner's document are unchanged.",
  "C11": "An accepted session may also end with AcceptError::Close; the search that delivers actor messages also delivers NeighborDown (nothing about the pair may change). Family L (real nodes): in every node's own record the sessions with one peer never overlap, and after all traffic has ended a node that is asked for a session every 250 ms reports at least one finished or failed session. Declined requests between real nodes: a node that does not sync a document (three variants, see C10) must not let a peer's request end as a successful session.",
  "C12": "Sequences that start with the document held read-only and import the write capability while it is open and subscribed. Family L (real nodes): a subscriber of the docs API on every node sees exactly its node's accepted local writes in order, every remote entry at most once, one for every remote entry the node holds at the end, and nothing nobody wrote. A subscriber of a second document of node 0 lives through all histories of a worker: after every history (which drops its own document) a write to the second document still reaches it.",
  "C13": "Reports also name an author never seen whose id sorts before, between or after the known authors. (e) Five complete sessions between the real initiator loop and the real acceptor loop (one with 450 entries per side whose time order is the reverse of key order): the head each side reports as received lies between the newest entry that entered from the peer and the peer's newest.",
  "C14": "The alphabet holds a read-only import for the second document (so that the write import is an upgrade of an open, subscribed document); one history takes 300 handles on a document and releases them one by one. Open with a subscriber whose receiver is gone (document 0) is in the alphabet; family A also abandons the upgrade of an open read-only document and then writes.",
- "C15": "Family L (real nodes): the last node of the swarm is given one of five policies; of the contents written elsewhere it fetches exactly those whose key the policy selects (selected and still held: present within the deadline; not selected: absent).",
+ "C15": "Family L (real nodes): the last node of the swarm is given one of five policies; of the contents written elsewhere it fetches exactly those whose key the policy selects (selected and still held: present within the deadline; not selected: absent). A store file of the redb 2.x format holding a policy returns it unchanged after it is opened (converted).",
  "C16": "Removal and re-creation of a 1102-entry document (13 authors, among them the all-zero and the all-0xFF id) between its byte-order neighbours. The collector also asks while the store actor is blocked for 6.5 s (thorough 22 s) by a slow subscriber: whenever the callback says continue, every held hash is protected.",
  "C17": "Family M: store files written with redb 3 in the redb 2.x tuple format (as older releases wrote them) with 0, 1, 3 and 5 registered peers are opened (and thereby converted): the list is the one that was stored. Family R runs on the machine's own clock (no hook) with a file-backed store reopened at every prefix: the store opened again is younger than the registrations it finds.",
- "C18": "A database of 2100 authors with two entries each goes through the same table deletions and reopen cycles. Two further variants give the file the shape of the oldest versions (documents listed in table namespaces-1, the current table and both derived tables absent).",
+ "C18": "A database of 2100 authors with two entries each goes through the same table deletions and reopen cycles. Two further variants give the file the shape of the oldest versions (documents listed in table namespaces-1, the current table and both derived tables absent). A store file of the redb 2.x format (written with redb 3 and the legacy tuple types) is opened twice: records, heads and key-ordered listing are what was stored, and the second open changes nothing.",
 }
 for _pid, _t in EXTRA.items():
     P[_pid]["text"] = P[_pid]["text"].rstrip() + " " + _t
